@@ -145,7 +145,7 @@ func C06(r *vf.Run) {
 				switch {
 				case d == "back-129", d == "back-128", d == "back-127", d == "back-2", d == "back-3", d == "fwd0", d == "fwd1", d == "fwd126", d == "fwd127", d == "fwd128":
 					cells["dist:"+d+":"+outcome]++
-				case strings.HasPrefix(d, "far"):
+				case strings.HasPrefix(d, "far"), d == "hot-label":
 					cells["dist:"+d+":"+outcome]++
 				}
 			}
@@ -217,7 +217,7 @@ func C06(r *vf.Run) {
 		}
 		r.MergeCells(cells)
 	})
-	for _, d := range []string{"back-129", "back-128", "back-127", "back-2", "fwd0", "fwd1", "fwd126", "fwd127", "fwd128", ":fail:", ":ok:", "abs16", "dist:farfwdf", "dist:farbackf", "dist:farfwd7", "dist:farback8", "dist:farjmp"} {
+	for _, d := range []string{"back-129", "back-128", "back-127", "back-2", "fwd0", "fwd1", "fwd126", "fwd127", "fwd128", ":fail:", ":ok:", "abs16", "dist:farfwdf", "dist:farbackf", "dist:farfwd7", "dist:farback8", "dist:farjmp", "dist:hot-label"} {
 		r.RequireSub(d)
 	}
 }
